@@ -161,6 +161,19 @@ CHECKS = {
              'find_groups=False, two parses must agree, and for structures whose segment names occur at one place the tree must be '
              'exactly the derivation tree and draw no message- or group-level validation error.',
         note='trusted: instance generator and the tables; bare segment bodies; 2 known findings (D15, D16)'),
+    'C04': dict(
+        engine=E1, design_ref='DESIGN.md section 7 C04',
+        technique='exhaustive enumeration, per message structure and per segment of every version, of the conforming instance built '
+                  'through the API and of every single-point mutation of it (missing required child, max+1 copies, foreign child, '
+                  'unnamed element, datatype override) through the real validator; purity / determinism / report-form oracles',
+        text='For every concrete message structure (~1,970; identity message profile as reference for 2.5 and 2.7, thorough: all) '
+             'and every segment definition (1,657; thorough also every complex datatype) the conforming required-only instance '
+             'must validate, and each single-point mutation at every child site (~47,500 validated elements in quick) must fail '
+             'with an error text naming the mutated child (its parent for unnamed elements). On every conforming and one mutated '
+             'instance per structure: encoding and recursive listing unchanged by validate(), two calls report equally, is_valid '
+             '== (errors == []), the raising form raises exactly errors[0] (type and text) or returns True, and the report '
+             'written to a file object and to a path consists exactly of the Error:/Warning: lines of the returned lists.',
+        note='trusted: conforming-instance builder (tables), error-text matching by child name; 33 known findings (D12: structures listing one segment twice)'),
     'C06': dict(
         engine=E1, design_ref='DESIGN.md section 7 C06',
         technique='bounded-exhaustive enumeration (all strings <= 5/6 over the delimiter/escape alphabet x every textual '
